@@ -448,6 +448,8 @@ pub struct StreamCtl {
     pub ends: bool,
     pub waker: Option<Waker>,
     pub done: bool,
+    pub infinite: bool,
+    pub next_idx: usize,
 }
 pub struct CtlStream(pub Arc<Mutex<StreamCtl>>);
 impl Stream for CtlStream {
@@ -460,6 +462,12 @@ impl Stream for CtlStream {
         if g.avail > 0 && !g.items.is_empty() {
             g.avail -= 1;
             let it = g.items.pop_front().unwrap();
+            g.next_idx = it.idx + 1;
+            e(&[ev::YIELD as usize, g.aid, it.idx, it.v as usize]);
+            Poll::Ready(Some(it))
+        } else if g.infinite && g.items.is_empty() && !g.ends {
+            let it = StreamItem { idx: g.next_idx, v: 200 + (g.next_idx % 40) as u32 };
+            g.next_idx += 1;
             e(&[ev::YIELD as usize, g.aid, it.idx, it.v as usize]);
             Poll::Ready(Some(it))
         } else if g.items.is_empty() && g.ends {
